@@ -123,6 +123,39 @@ static void case_regular_1d(Rng& rng, uint64_t index)
 	if(index % 1999 == 0)
 		sample();
 }
+// narrow intervals far from the origin (relative width down to 1e-13): the reference is the driver's own long double Gauss-Legendre rule
+static void case_narrow_1d(Rng& rng, uint64_t index)
+{
+	int method = (int) (index % 6);
+	double a   = (index % 12 == 0) ? 1.0 : rng.sign() * rng.loguni(1e-2, 1e3);
+	double rel = (index % 12 == 0) ? 1e-11 : rng.loguni(1e-13, 1e-3);
+	double b   = a + std::fabs(a) * rel;
+	if(!(b > a))
+		return;
+	double k = rng.uni(-0.5, 0.5), om = rng.uni(0.1, 2), ph = rng.uni(0, 6);
+	if(index % 12 == 0)
+		k = -0.3, om = 0.7, ph = 0.0;
+	std::function<double(double)> f = [=](double x) { return std::exp(k * x) * (2 + std::cos(om * x + ph)); };
+	auto fl = [=](ld x) { return expl((ld) k * x) * (2 + cosl((ld) om * x + (ld) ph)); };
+	ld exact = sp::gl_panel(fl, (ld) a, (ld) b, 16);
+	bool rev = rng.coin(0.3);
+	double a1 = rev ? b : a, b1 = rev ? a : b;
+	auto pj = [&] { return J().str("integrand", "exp(k x)(2+cos(om x+ph))").d("a", a1).d("b", b1).d("k", k).d("omega", om).d("phase", ph).d("relative_width", rel); };
+	set_params(pj().str("method", METHODS[method]));
+	hash_param(a), hash_param(b), hash_param(k), hash_param(om), hash_param_u(method);
+	mark_nontrivial();
+	Trace tr;
+	StreamCapture cap;
+	double got = Integrate(traced(f, &tr), a1, b1, std::string(METHODS[method]), 0);
+	ld want	   = rev ? -exact : exact;
+	double err = (double) (fabsl((ld) got - want) / fabsl(exact));
+	char cl[96];
+	snprintf(cl, sizeof cl, "%s-within-%s-on-narrow-intervals", METHODS[method], method == 5 ? "1e-6" : "1e-9");
+	// the integrand is positive and varies by < 1e-3 over the interval: every method must reach its accuracy; the abscissae are rounded to
+	// doubles, which moves each by up to eps|a|, i.e. changes f by |f'/f| eps |a| <= 3 eps |a| relatively
+	judge(cl, err, (method == 5 ? 1e-6 : 1e-9) + 8 * EPS * (1 + std::fabs(a)), [&] { return pj().str("method", METHODS[method]).d("got", got).d("reference", (double) want).i("evaluations", (long long) tr.n); });
+	require("integrand-evaluated-inside-limits", tr.inside(a, b), [&] { return pj().d("xmin", tr.xmin).d("xmax", tr.xmax); });
+}
 // recorded witnesses of finding D16: fixed inputs re-executed on every run
 struct Wit
 {
@@ -389,6 +422,7 @@ static void setup()
 {
 	add_generator("recorded_witnesses", sizeof WITS / sizeof WITS[0], case_witness);
 	add_generator("closed_form_1d", ctx().count(7200, 720000), case_closed_1d);
+	add_generator("narrow_intervals_1d", ctx().count(2400, 240000), case_narrow_1d);
 	add_generator("estimator_regular_adaptive_simpson", ctx().count(3000, 300000), case_regular_1d);
 	add_generator("nested_2d_3d", ctx().count(480, 48000), case_nested, 600.0);
 	add_generator("spherical_overload", ctx().count(240, 24000), case_spherical, 600.0);
